@@ -265,7 +265,10 @@ Inductive case :=
    [sizes] are chunkings under which the implementation gave the same outcome *)
 | CDec (B : N) (v : option (rv * bytes)) (input : bytes) (sizes : list (list nat)) (impl : result msg) (consumed allocd : N)
 (* readNextMessage on the prefixes of [input] of the listed lengths *)
-| CTrunc (B : N) (input : bytes) (samples : list (nat * result msg * N)).
+| CTrunc (B : N) (input : bytes) (samples : list (nat * result msg * N))
+(* readNextMessage on the long input [prefix ++ count copies of pat] (a declared length far above what follows, with
+   a long real payload / many real elements): result, bytes consumed, bytes allocated *)
+| CBig (B : N) (prefix pat : bytes) (count : N) (impl : result msg) (consumed allocd : N).
 
 Definition check_dec (B : nat) (input : bytes) (impl : result msg) (consumed : N) : bool :=
   let '(r, rest, _) := decode B input in
@@ -287,4 +290,8 @@ Definition check_case (c : case) : bool :=
       end
   | CTrunc B input samples =>
       forallb (fun s => let '(k, impl, consumed) := s in check_dec (N.to_nat B) (firstn k input) impl consumed) samples
+  | CBig B prefix pat count impl consumed allocd =>
+      let input := prefix ++ rep_bytes pat count in
+      let '(r, rest, al) := decode (N.to_nat B) input in
+      res_msg_eqb r impl && (blen input - blen rest =? consumed) && (allocd <=? alloc_envelope al consumed)
   end.
